@@ -81,8 +81,11 @@ int main(int argc, char ** argv)
   std::vector<std::string> samples;
   const std::string unit_json = "\"unit\":" + hx::jstr(uname) + ",\"level\":" + (has_level ? std::to_string(level) : std::string("null"));
 
-  auto oblige = [&](sx::Bool claim, const char * what, int idx, const hx::Rec * r) {
-    obligations++;
+  // obligations of one path are collected and discharged as one conjunction; only if that
+  // fails are they proved one by one (to name the failing one)
+  struct Pending { sx::Bool claim; std::string what; int idx; hx::Rec rec; bool has_rec; };
+  std::vector<Pending> pending;
+  auto oblige_now = [&](sx::Bool claim, const std::string & what, int idx, const hx::Rec * r) {
     sx::Model m;
     sx::verdict v = sx::prove(claim, &m);
     if (v == sx::PROVED) return;
@@ -90,8 +93,25 @@ int main(int argc, char ** argv)
     emit("{\"type\":\"obligation\"," + unit_json + ",\"what\":" + hx::jstr(what) + ",\"verdict\":" + (v == sx::UNKNOWN ? "\"unknown\"" : "\"refuted\"") +
          ",\"index\":" + std::to_string(idx) + (r ? ",\"rec\":" + hx::jrec(*r) : "") + ",\"model\":" + hx::jmodel(m) + ",\"decisions\":" + decisions_json() + "}");
   };
+  auto oblige = [&](sx::Bool claim, const char * what, int idx, const hx::Rec * r) {
+    obligations++;
+    Pending p;
+    p.claim = claim; p.what = what; p.idx = idx; p.has_rec = r != nullptr;
+    if (r) p.rec = *r;
+    pending.push_back(p);
+  };
+  auto flush_obligations = [&]() {
+    if (pending.empty()) return;
+    sx::Bool all = pending[0].claim;
+    for (size_t i = 1; i < pending.size(); i++) all = sx::b_and(all, pending[i].claim);
+    if (sx::prove(all) != sx::PROVED) {
+      for (auto & p : pending) oblige_now(p.claim, p.what, p.idx, p.has_rec ? &p.rec : nullptr);
+    }
+    pending.clear();
+  };
 
   sx::Stats st = sx::explore([&]() {
+    pending.clear();
     hx::trace[0].clear();
     hx::trace[1].clear();
     bxdecay0::event ev;
@@ -138,8 +158,8 @@ int main(int argc, char ** argv)
         else { tclev = r.a[n - 2]; thlev = r.a[n - 1]; }
         if (!(tclev.is_concrete() && tclev.c >= 0)) oblige(sx::b_cmp(sx::CMP_GE, tclev, zero), "tclev>=0", (int)i, &r);
         else obligations++;
-        if (!(thlev.is_concrete() && thlev.c >= 0)) oblige(sx::b_cmp(sx::CMP_GE, thlev, zero), "thlev>=0", (int)i, &r);
-        else obligations++;
+        // (no obligation on thlev: randomize_particle treats thlev <= 0 as "instantaneous")
+        (void)thlev;
         double E = r.a[0];
         bool ok  = true;
         switch (r.kind) {
@@ -201,6 +221,7 @@ int main(int argc, char ** argv)
           oblige(sx::b_cmp(sx::CMP_GE, t, prev), "time non-decreasing", (int)i, nullptr);
         }
       }
+      flush_obligations();
       // C03: cascade energy closure for *low units (level energy in keV)
       if (U->pl) {
         obligations++;
